@@ -100,4 +100,82 @@ example : keysOf (build [("test", 1), ("build", 2), ("lint", 3)]) = ["build", "l
     build [("test", 1), ("build", 2), ("lint", 3)] = build [("lint", 3), ("test", 1), ("build", 2)] := by
   decide
 
+/-! ### suggestions in error messages -/
+
+/-- **the suggestion in an "unknown recipe" error is a function of the SET of definitions**: in whatever order recipes
+and aliases are defined, the same name is suggested (the candidates come out of ordered tables) — for every edit
+distance function -/
+theorem suggestion_independent_of_definition_order {α β : Type} (dist : String → Nat)
+    (r₁ r₂ : List (String × α)) (a₁ a₂ : List (String × β))
+    (hr : (r₁.map Prod.fst).Nodup) (ha : (a₁.map Prod.fst).Nodup) (pr : r₁.Perm r₂) (pa : a₁.Perm a₂) :
+    suggestRecipe dist r₁ a₁ = suggestRecipe dist r₂ a₂ := by
+  unfold suggestRecipe
+  rw [table_independent_of_definition_order r₁ r₂ hr pr, table_independent_of_definition_order a₁ a₂ ha pa]
+
+/-- what is suggested is a candidate, at distance below 3, and no candidate is nearer -/
+theorem suggestion_is_nearest (dist : String → Nat) (cands : List String) (s : String) (h : suggest dist cands = some s) :
+    s ∈ cands ∧ dist s < 3 ∧ ∀ c ∈ cands, dist s ≤ dist c := by
+  have key : ∀ (l : List String) (best : Option String) (s : String), pickNearest dist best l = some s →
+      (s ∈ l ∨ best = some s) ∧ (∀ c ∈ l, dist s ≤ dist c) ∧ (∀ b, best = some b → dist s ≤ dist b) := by
+    intro l
+    induction l with
+    | nil => intro best s h; simp only [pickNearest] at h; subst h; simp
+    | cons c cs ih =>
+      intro best s h
+      cases best with
+      | none =>
+        simp only [pickNearest] at h
+        obtain ⟨h1, h2, h3⟩ := ih (some c) s h
+        refine ⟨?_, ?_, by simp⟩
+        · rcases h1 with h1 | h1
+          · exact Or.inl (List.mem_cons_of_mem _ h1)
+          · cases h1; exact Or.inl (by simp)
+        · intro x hx
+          rcases List.mem_cons.mp hx with rfl | hx
+          · exact h3 _ rfl
+          · exact h2 x hx
+      | some b =>
+        simp only [pickNearest] at h
+        by_cases hlt : dist c < dist b
+        · simp only [hlt, if_true] at h
+          obtain ⟨h1, h2, h3⟩ := ih (some c) s h
+          refine ⟨?_, ?_, ?_⟩
+          · rcases h1 with h1 | h1
+            · exact Or.inl (List.mem_cons_of_mem _ h1)
+            · cases h1; exact Or.inl (by simp)
+          · intro x hx
+            rcases List.mem_cons.mp hx with rfl | hx
+            · exact h3 _ rfl
+            · exact h2 x hx
+          · intro b' hb'; cases hb'; have := h3 c rfl; omega
+        · simp only [hlt, if_false] at h
+          obtain ⟨h1, h2, h3⟩ := ih (some b) s h
+          refine ⟨?_, ?_, ?_⟩
+          · rcases h1 with h1 | h1
+            · exact Or.inl (List.mem_cons_of_mem _ h1)
+            · exact Or.inr h1
+          · intro x hx
+            rcases List.mem_cons.mp hx with rfl | hx
+            · have := h3 b rfl; omega
+            · exact h2 x hx
+          · intro b' hb'; cases hb'; exact h3 b rfl
+  unfold suggest at h
+  obtain ⟨h1, h2, _⟩ := key _ none s h
+  have hm : s ∈ cands.filter (fun c => decide (dist c < 3)) := by
+    rcases h1 with h1 | h1
+    · exact h1
+    · cases h1
+  have hs := List.mem_filter.mp hm
+  refine ⟨hs.1, by simpa using hs.2, ?_⟩
+  intro c hc
+  by_cases hc3 : dist c < 3
+  · exact h2 c (List.mem_filter.mpr ⟨hc, by simpa using hc3⟩)
+  · have : dist s < 3 := by simpa using hs.2
+    omega
+
+/-- **with candidates taken from a hash table the suggestion depends on the iteration order** whenever two candidates
+are equally near (the seeded change C20-m7 chained the constants' `HashMap` keys) -/
+theorem suggestion_depends_on_candidate_order :
+    suggest (fun _ => 2) ["RED", "GREEN"] ≠ suggest (fun _ => 2) ["GREEN", "RED"] := by decide
+
 end Just.Props.C20
